@@ -155,7 +155,11 @@ Section Buf.
     ik_lists : NoDup (Ls ++ Qs);
     ik_valid : forall o, o ∈ pc m ++ Ls ++ Qs -> is_Some (get m o);
     ik_pc : forall o x, get m o = Some x -> (h_mark (o_hdr x) = PC <-> o ∈ pc m);
-    ik_il : forall o x, get m o = Some x -> (h_mark (o_hdr x) = IL <-> o ∈ Ls);
+    (* members are marked IL; an IL-marked box that is not a member has been freed (the drop
+       pass frees its list without touching the headers) *)
+    ik_il : forall o x, get m o = Some x ->
+              (o ∈ Ls -> h_mark (o_hdr x) = IL) /\
+              (h_mark (o_hdr x) = IL -> o ∈ Ls \/ o_box x = BFreed);
     ik_iq : forall o x, get m o = Some x -> (h_mark (o_hdr x) = IQ <-> o ∈ Qs);
     ik_box : forall o x, get m o = Some x -> o_box x = BNotYet -> h_mark (o_hdr x) = NM;
     ik_bytes : st_alloc m = bytes m;
@@ -292,7 +296,7 @@ Section Buf.
     - intros o' Ho'. destruct (H4 o' Ho') as [x E]. rewrite get_upd, E.
       destruct (decide (o = o')); cbn; eauto.
     - intros o' y E. destruct (Hg o' y E) as (x & E' & -> & _). eauto.
-    - intros o' y E. destruct (Hg o' y E) as (x & E' & -> & _). eauto.
+    - intros o' y E. destruct (Hg o' y E) as (x & E' & -> & ->). eauto.
     - intros o' y E. destruct (Hg o' y E) as (x & E' & -> & _). eauto.
     - intros o' y E. destruct (Hg o' y E) as (x & E' & -> & ->). eauto.
     - unfold bytes in *. cbn. destruct (get m o) as [x|] eqn:E.
@@ -350,7 +354,7 @@ Section Buf.
   Qed.
 
   (** one object changes (marks, box state), the lists change accordingly *)
-  Lemma Imk_reobj Ls Qs Ls' Qs' m m' o x g :
+  Lemma Imk_reobj' Ls Qs Ls' Qs' m m' o x g :
     Imk Ls Qs m -> get m o = Some x ->
     heap m' = alter g o (heap m) ->
     pc_size m' = N.of_nat (length (pc m')) -> pc_alive m' = pc_alive m ->
@@ -359,7 +363,8 @@ Section Buf.
     (forall o', o' <> o -> (o' ∈ pc m' <-> o' ∈ pc m) /\ (o' ∈ Ls' <-> o' ∈ Ls) /\
                            (o' ∈ Qs' <-> o' ∈ Qs)) ->
     (h_mark (o_hdr (g x)) = PC <-> o ∈ pc m') ->
-    (h_mark (o_hdr (g x)) = IL <-> o ∈ Ls') ->
+    ((o ∈ Ls' -> h_mark (o_hdr (g x)) = IL) /\
+     (h_mark (o_hdr (g x)) = IL -> o ∈ Ls' \/ o_box (g x) = BFreed)) ->
     (h_mark (o_hdr (g x)) = IQ <-> o ∈ Qs') ->
     (o_box (g x) = BNotYet -> h_mark (o_hdr (g x)) = NM) ->
     Imk Ls' Qs' m'.
@@ -397,21 +402,40 @@ Section Buf.
     - rewrite Ea. exact H10.
   Qed.
 
+  Lemma Imk_reobj Ls Qs Ls' Qs' m m' o x g :
+    Imk Ls Qs m -> get m o = Some x ->
+    heap m' = alter g o (heap m) ->
+    pc_size m' = N.of_nat (length (pc m')) -> pc_alive m' = pc_alive m ->
+    st_alloc m' + osize x = st_alloc m + osize (g x) -> uflow m' = false ->
+    NoDup (pc m') -> NoDup (Ls' ++ Qs') ->
+    (forall o', o' <> o -> (o' ∈ pc m' <-> o' ∈ pc m) /\ (o' ∈ Ls' <-> o' ∈ Ls) /\
+                           (o' ∈ Qs' <-> o' ∈ Qs)) ->
+    (h_mark (o_hdr (g x)) = PC <-> o ∈ pc m') ->
+    (h_mark (o_hdr (g x)) = IL <-> o ∈ Ls') ->
+    (h_mark (o_hdr (g x)) = IQ <-> o ∈ Qs') ->
+    (o_box (g x) = BNotYet -> h_mark (o_hdr (g x)) = NM) ->
+    Imk Ls' Qs' m'.
+  Proof.
+    intros I Ex Eh Es Ea Eb Eu Hnd Hnd' Hoth Hpc Hil Hiq Hbx.
+    eapply Imk_reobj'; try eassumption. split; [apply Hil|]. intros H. left. apply Hil, H.
+  Qed.
+
   (** marks of the three kinds are exclusive *)
   Lemma Imk_mark_cases Ls Qs m o x :
     Imk Ls Qs m -> get m o = Some x ->
     match h_mark (o_hdr x) with
     | NM => o ∉ pc m /\ o ∉ Ls /\ o ∉ Qs
     | PC => o ∈ pc m /\ o ∉ Ls /\ o ∉ Qs
-    | IL => o ∉ pc m /\ o ∈ Ls /\ o ∉ Qs
+    | IL => o ∉ pc m /\ (o ∈ Ls \/ o_box x = BFreed) /\ o ∉ Qs
     | IQ => o ∉ pc m /\ o ∉ Ls /\ o ∈ Qs
     end.
   Proof.
-    intros I E. pose proof (ik_pc _ _ _ I o x E) as A1. pose proof (ik_il _ _ _ I o x E) as A2.
+    intros I E. pose proof (ik_pc _ _ _ I o x E) as A1. destruct (ik_il _ _ _ I o x E) as [A2 A2'].
     pose proof (ik_iq _ _ _ I o x E) as A3.
     destruct (h_mark (o_hdr x)); repeat split;
-      try (apply A1; reflexivity); try (apply A2; reflexivity); try (apply A3; reflexivity);
-      rewrite <- ?A1, <- ?A2, <- ?A3; discriminate.
+      try (apply A1; reflexivity); try (apply A2'; reflexivity); try (apply A3; reflexivity);
+      try (rewrite <- ?A1, <- ?A3; discriminate);
+      try (intros H; specialize (A2 H); discriminate).
   Qed.
 
 
@@ -627,7 +651,7 @@ Section Buf.
       rewrite <- (ik_bytes _ _ _ I), Hsz in Hge.
       destruct (st_alloc m <? sz) eqn:Elt; [apply N.ltb_lt in Elt; lia|].
       pose proof (Imk_mark_cases _ _ _ _ _ I Ex) as Hc.
-      eapply (Imk_reobj Ls Qs Ls Qs m _ o x (fun x => x <| o_box := BFreed |>));
+      eapply (Imk_reobj' Ls Qs Ls Qs m _ o x (fun x => x <| o_box := BFreed |>));
         try exact I; try exact Ex; try reflexivity.
       + exact (ik_size _ _ _ I).
       + cbn. rewrite Hsz. unfold osize. cbn. lia.
@@ -636,7 +660,7 @@ Section Buf.
       + exact (ik_lists _ _ _ I).
       + intros o' _. tauto.
       + cbn. apply (ik_pc _ _ _ I o x Ex).
-      + cbn. apply (ik_il _ _ _ I o x Ex).
+      + cbn. split; [apply (ik_il _ _ _ I o x Ex)|intros _; right; reflexivity].
       + cbn. apply (ik_iq _ _ _ I o x Ex).
       + cbn. discriminate.
     - left. unfold dirty. destruct (_ <? _); cbn; rewrite ?orb_true_r; reflexivity.
@@ -731,7 +755,7 @@ Section Buf.
       + intros o z E. destruct (Hnew o z E) as [E'|[En ->]]; [eauto|].
         destruct (Hnot o En) as (? & ? & ?). rewrite Hm. split; [discriminate|tauto].
       + intros o z E. destruct (Hnew o z E) as [E'|[En ->]]; [eauto|].
-        destruct (Hnot o En) as (? & ? & ?). rewrite Hm. split; [discriminate|tauto].
+        destruct (Hnot o En) as (? & ? & ?). rewrite Hm. split; [tauto|discriminate].
       + intros o z E. destruct (Hnew o z E) as [E'|[En ->]]; [eauto|].
         destruct (Hnot o En) as (? & ? & ?). rewrite Hm. split; [discriminate|tauto].
       + intros o z E. destruct (Hnew o z E) as [E'|[En ->]]; [eauto|]. auto.
@@ -965,7 +989,9 @@ Section Bulk.
     (forall o, o ∈ pc m' ++ Ls' ++ Qs' -> o ∈ pc m ++ Ls ++ Qs) ->
     (forall o x, get m o = Some x ->
        let mk := if decide (o ∈ L) then h_mark (f (o_hdr x)) else h_mark (o_hdr x) in
-       (mk = PC <-> o ∈ pc m') /\ (mk = IL <-> o ∈ Ls') /\ (mk = IQ <-> o ∈ Qs') /\
+       (mk = PC <-> o ∈ pc m') /\
+       ((o ∈ Ls' -> mk = IL) /\ (mk = IL -> o ∈ Ls' \/ o_box x = BFreed)) /\
+       (mk = IQ <-> o ∈ Qs') /\
        (o_box x = BNotYet -> mk = NM)) ->
     Imk Ls' Qs' m'.
   Proof.
@@ -981,7 +1007,7 @@ Section Bulk.
       unfold get. rewrite Eh. fold (get (fold_left (fun m g => uhdr g f m) L m) o).
       rewrite get_fold_uhdr, Ex by exact Hf. destruct (decide (o ∈ L)); cbn; eauto.
     - intros o y E. destruct (Hg o y E) as (x & Ex & _ & ->). apply (Hmk o x Ex).
-    - intros o y E. destruct (Hg o y E) as (x & Ex & _ & ->). apply (Hmk o x Ex).
+    - intros o y E. destruct (Hg o y E) as (x & Ex & -> & ->). apply (Hmk o x Ex).
     - intros o y E. destruct (Hg o y E) as (x & Ex & _ & ->). apply (Hmk o x Ex).
     - intros o y E. destruct (Hg o y E) as (x & Ex & -> & ->). apply (Hmk o x Ex).
     - rewrite Eb, (ik_bytes _ _ _ _ I). unfold bytes at 2. rewrite Eh.
